@@ -20,7 +20,7 @@ FINDINGS_FILE = os.path.join(ROOT, "known_findings.json")
 
 CLAIMED = ["C01", "C05", "C06", "C07", "C08", "C12", "C14", "C17", "C18", "C19"]
 
-UNIT_WATCHDOG_S = 600
+UNIT_WATCHDOG_S = int(os.environ.get("VERIF_UNIT_WATCHDOG_S", 900))
 
 
 def prop_module(pid):
@@ -123,7 +123,7 @@ def isolated_call(fn, *args, timeout=None):
 
 
 def _unit_body(pid, unit):
-    faulthandler.dump_traceback_later(UNIT_WATCHDOG_S, exit=True)
+    faulthandler.dump_traceback_later(int(os.environ.get("VERIF_UNIT_WATCHDOG_S", UNIT_WATCHDOG_S)), exit=True)
     mod = prop_module(pid)
     t0 = time.time()
     res = mod.run_unit(unit)
@@ -291,6 +291,8 @@ def run_check(pid, tier, seed, workers=None, quiet=False):
     findings = load_findings(pid)
     units = mod.plan(tier, seed)
     budget = float(os.environ.get("VERIF_BUDGET_S", mod.BUDGET_S[tier]))
+    if tier == "thorough":
+        os.environ.setdefault("VERIF_UNIT_WATCHDOG_S", "5400")  # units of the thorough tier are long on purpose
     workers = workers or int(os.environ.get("VERIF_WORKERS", min(16, os.cpu_count() or 1)))
     print("seed=%d property=%s tier=%s units=%d workers=%d" % (seed, pid, tier, len(units), workers))
     sys.stdout.flush()
